@@ -61,8 +61,8 @@ def install_fake_propka():
     _installed = True
 
 
-def supported(ff, variant, nterm, cterm):
-    st_ = topo.expected_state(variant, nterm, cterm)
+def supported(ff, variant, nterm, cterm, neutraln=False, neutralc=False):
+    st_ = topo.expected_state(variant, nterm, cterm, neutraln, neutralc)
     name = st_["prefix"] + (st_["core"] or "HID")
     return ffmodel.supports(ff, name, st_["atoms"])
 
@@ -101,9 +101,10 @@ def _run(desc, ff, ph, pka, term=None, opts=()):
     return e2e.run_case(desc, ff, ["--titration-state-method=propka", f"--with-ph={ph}", "--keep-chain", *opts])
 
 
-def _judge(res, desc, ff, ph, pka, s, r, base_missing, ctxmsg):
+def _judge(res, desc, ff, ph, pka, s, r, base_missing, ctxmsg, opts=()):
     """Compare every titrated group of a successful run with the oracle."""
-    A = e2e.analyse(desc, ff, [], s, r)
+    A = e2e.analyse(desc, ff, list(opts), s, r)
+    neutraln, neutralc = "--neutraln" in opts, "--neutralc" in opts
     warned = " ".join(m for lvl, _n, m in r.warnings)
     wanted_any = False
     bridged = e2e.ss_from_records(s)  # cysteines in a disulfide bridge are not titrated
@@ -127,9 +128,9 @@ def _judge(res, desc, ff, ph, pka, s, r, base_missing, ctxmsg):
             prot_expected = ph < pka[key]
             want_variant = prot_expected == var_prot
             nterm, cterm = i == 0, i == n - 1
-            sup = supported(ff, var, nterm, cterm)
+            sup = supported(ff, var, nterm, cterm, neutraln, neutralc)
             wanted_any = wanted_any or want_variant
-            st_ = topo.expected_state(var if (want_variant and sup) else nm, nterm, cterm)
+            st_ = topo.expected_state(var if (want_variant and sup) else nm, nterm, cterm, neutraln, neutralc)
             core = st_["core"] or ("HID" if "HD1" in entry["atoms"] and "HE2" not in entry["atoms"] else
                                    ("HIE" if "HE2" in entry["atoms"] and "HD1" not in entry["atoms"] else "HIP"))  # fmt: skip
             expname = st_["prefix"] + core
@@ -201,7 +202,11 @@ def random_case(draw):
     phs = [draw(st.integers(0, 1400)) / 100.0 for _ in range(3)]
     if pka:
         phs.append(pka[draw(st.integers(0, len(pka) - 1))][1])
-    return dict(part="random", chain=ch, pka=pka, phs=sorted(set(phs)), ff=draw(st.sampled_from(ffmodel.FFS)))
+    ff = draw(st.sampled_from(ffmodel.FFS + ["PARSE", "PARSE"]))
+    opts = []
+    if ff == "PARSE":  # neutral termini (PARSE only) combined with titration of the terminal residues
+        opts = draw(st.sampled_from([[], [], ["--neutralc"], ["--neutraln"], ["--neutraln", "--neutralc"]]))
+    return dict(part="random", chain=ch, pka=pka, phs=sorted(set(phs)), ff=ff, opts=opts)
 
 
 def check_random(case):
@@ -209,8 +214,9 @@ def check_random(case):
     ch, ff = case["chain"], case["ff"]
     desc = dict(chains=[ch], waters=[])
     pka = {("A", ch["start"] + i): v for i, v in case["pka"]}
-    s0, r0 = e2e.run_case(desc, ff, ["--keep-chain"])
-    res.label(f"ff={ff}", f"groups={min(len(pka), 3)}", "resnum>=1000" if ch["start"] + len(ch["seq"]) > 1000 else "resnum<1000")
+    opts = list(case.get("opts", []))
+    s0, r0 = e2e.run_case(desc, ff, ["--keep-chain", *opts])
+    res.label(f"ff={ff}", f"groups={min(len(pka), 3)}", "resnum>=1000" if ch["start"] + len(ch["seq"]) > 1000 else "resnum<1000", *opts)
     if not r0.ok:
         res.label("base-run-failed")
         return res
@@ -218,11 +224,11 @@ def check_random(case):
     prev = None
     wanted = False
     for ph in case["phs"]:
-        s, r = _run(desc, ff, ph, pka)
+        s, r = _run(desc, ff, ph, pka, opts=opts)
         if not r.ok:
-            res.bad("C06:run-aborts", f"{ff} {ch['seq']} pH {ph} pKa {case['pka']}: {r.exc_text[:100]}")
+            res.bad("C06:run-aborts", f"{ff} {ch['seq']} pH {ph} pKa {case['pka']} {opts}: {r.exc_text[:100]}")
             continue
-        A, w = _judge(res, desc, ff, ph, pka, s, r, base_missing, f"[seq {ch['seq']}]")
+        A, w = _judge(res, desc, ff, ph, pka, s, r, base_missing, f"[seq {ch['seq']} {' '.join(opts)}]", opts)
         wanted = wanted or w
         total = sum(e["obj"].charge for e in A.residues)
         if prev is not None and total > prev[1] + 1e-6:
